@@ -33,6 +33,7 @@ type checkSpec struct {
 	rule       string
 	setup      func(c *cluster) // extra per-case configuration (hooks etc.)
 	closing    bool
+	avail      bool // C17: heal only a majority at the end
 }
 
 var safetyCore = []string{"leader-unique", "leader-complete", "commit-stable", "log-matching", "leader-append-only", "fsm-agreement", "exactly-once"}
@@ -258,14 +259,16 @@ func (c *cluster) generate(rt *rapid.T, p *profile, spec *checkSpec) {
 			c.step(vAct{A: "adv", T: 100})
 		}
 	}
-	if !c.failed() && rapid.IntRange(0, 99).Draw(rt, "gated") < p.gatedBias {
+	if !c.failed() && rapid.IntRange(0, 99).Draw(rt, "gated") < p.gatedBias && !c.blackbox {
 		c.step(vAct{A: "gate"})
 	}
 	steps := rapid.IntRange(p.steps[0], p.steps[1]).Draw(rt, "steps")
 	for i := 0; i < steps && !c.failed(); i++ {
 		c.step(c.genAction(rt, p))
 	}
-	if (p.closing || spec.closing) && !c.failed() {
+	if spec.avail && !c.failed() {
+		c.availPhase(rt)
+	} else if (p.closing || spec.closing) && !c.failed() {
 		c.closingPhase()
 	}
 }
@@ -289,6 +292,68 @@ func (c *cluster) closingPhase() {
 	}
 	for i := 0; i < 10 && !c.failed(); i++ {
 		c.step(vAct{A: "adv", T: 1000})
+	}
+	if !c.failed() {
+		c.step(vAct{A: "checkconv"})
+	}
+	c.stats.class("closing")
+}
+
+// availPhase (C17): after the fault history only a majority of the voters of the
+// committed configuration (plus a drawn subset of the others) is healed and
+// restarted; everybody else stays down or cut off.
+func (c *cluster) availPhase(rt *rapid.T) {
+	c.step(vAct{A: "unholdall"})
+	c.step(vAct{A: "heal"})
+	c.step(vAct{A: "free"})
+	cfg := c.led.lastCommittedCfg
+	if cfg == nil {
+		return
+	}
+	var voters, others []uint64
+	for _, id := range c.order {
+		if c.nodes[id].removed {
+			continue
+		}
+		if nd, ok := cfg.Nodes[id]; ok && nd.Voter {
+			voters = append(voters, id)
+		} else {
+			others = append(others, id)
+		}
+	}
+	need := len(voters)/2 + 1
+	// drawn permutation prefix of the voters of size >= need
+	k := rapid.IntRange(need, len(voters)).Draw(rt, "healthyVoters")
+	perm := rapid.Permutation(voters).Draw(rt, "voterOrder")
+	healthy := append([]uint64(nil), perm[:k]...)
+	for _, id := range others {
+		if rapid.Bool().Draw(rt, "healthyOther") {
+			healthy = append(healthy, id)
+		}
+	}
+	sort.Slice(healthy, func(i, j int) bool { return healthy[i] < healthy[j] })
+	for _, id := range healthy {
+		if n := c.nodes[id]; n.status == nodeDown && n.image != "" {
+			c.step(vAct{A: "restart", N: id})
+		}
+	}
+	c.step(vAct{A: "healthy", L: healthy})
+	if len(healthy) < len(c.order) {
+		c.stats.class("avail-minority-out")
+	}
+	for i := 0; i < 20 && !c.failed(); i++ {
+		c.step(vAct{A: "adv", T: 2000})
+	}
+	if !c.failed() {
+		for _, id := range c.leaders() {
+			if c.healthy[id] {
+				c.step(vAct{A: "probe", N: id})
+				break
+			}
+		}
+	}
+	for i := 0; i < 10 && !c.failed(); i++ {
+		c.step(vAct{A: "adv", T: 2000})
 	}
 	if !c.failed() {
 		c.step(vAct{A: "checkconv"})
